@@ -26,8 +26,6 @@ type HostileCall struct {
 	Why     string            `json:"why,omitempty"`
 }
 
-
-
 func marshalPod(p *api.PodSandbox) json.RawMessage {
 	if p == nil {
 		return nil
